@@ -280,6 +280,40 @@ def chain_masks(ks):
     return out
 
 
+def long_chain_masks(ks, lengths):
+    """Binary complete subgraph plus a separate induced (chord-free) path of c vertices that ends in a
+    dead end, grown backwards by a deterministic greedy rule: trimming needs c rounds, one vertex each
+    (c = 63..300 and more - far beyond what the order-2/3 universes can ask for)."""
+    out = []
+    for k in ks:
+        n = 4 ** k
+        base = {O.idx(''.join(p)) for p in itertools.product('AC', repeat=k)}
+        lat = lambda v: [(v * 4 + j) % n for j in range(4)]
+        frm = lambda v: [v // 4 + j * (n // 4) for j in range(4)]
+        key = lambda p: (p * 2654435761) % (2 ** 32)
+        heads = sorted((v for v in range(n) if v not in base and not any(w in base for w in lat(v)) and v not in lat(v)), key=key)
+        for target in lengths:
+            best = []
+            for head in heads[:40]:
+                chain, used, succs = [head], {head}, set(lat(head))
+                while len(chain) < target:
+                    opts = [p for p in frm(chain[0]) if p not in base and p not in used and p not in succs
+                            and [w for w in lat(p) if w in used or w in base or w == p] == [chain[0]]]
+                    if not opts:
+                        break
+                    p = min(opts, key=key)
+                    chain.insert(0, p)
+                    used.add(p)
+                    succs.update(lat(p))
+                if len(chain) > len(best):
+                    best = chain
+                if len(best) >= target:
+                    break
+            if len(best) >= target:
+                out.append((k, base | set(best)))
+    return out
+
+
 def filter_masks(kmin, kmax):
     """The experiment filters scaled to order k (reference predicate, no dsw)."""
     cut = ["AGCT", "GACGC", "CAGCAG", "GATATC", "GGTACC", "CTGCAG", "GAGCTC", "GTCGAC", "AGTACT", "ACTAGT", "GCATGC", "AGGCCT", "TCTAGA"]
@@ -363,6 +397,10 @@ def run(ctx):
         fam.append((5, verts - {min(verts)}, (1, 2)))
     for k, S in chain_masks((3, 5, 6, 7) if ctx.quick else (3, 4, 5, 6, 7, 8)):
         fam.append((k, S, (1, 2)))
+    lc = long_chain_masks((6,) if ctx.quick else (6, 7), (63, 64, 65, 66, 130, 300) if ctx.quick else (63, 64, 65, 66, 130, 257, 300, 1030))
+    ctx.guard('long dead-end chains', len(lc) >= 6)
+    for k, S in lc:
+        fam.append((k, S, (1, 2)))
     for k in (4, 5, 6):
         for S in tiny_closed_sets(k):
             fam.append((k, S, (1, 2)))
@@ -370,7 +408,7 @@ def run(ctx):
     fam += [(k, m, (1, 2, 3, 4)) for k, m in fm if m]
     fam.sort(key=lambda x: -len(x[1]) * (4 ** x[0]))
     ctx.pmap(_w_list, [[f] for f in fam if 4 ** f[0] >= 4096] + core.chunks_of([f for f in fam if 4 ** f[0] < 4096], 60))
-    ctx.bounds = {'order2_masks': 'all 65536 x t 1..4 x {bool,int}', 'order1_masks': 'all 16',
+    ctx.bounds = {'long_dead_end_chains': '%d masks at order %s: binary core plus an induced dead-end path of 63..%d vertices (one trimming round per vertex)' % (len(lc), '6' if ctx.quick else '6-7', 300 if ctx.quick else 1030), 'order2_masks': 'all 65536 x t 1..4 x {bool,int}', 'order1_masks': 'all 16',
                   'binary_embedding_masks': 'k=3: 6 x 2^8; k=4: %s x 2^16' % (1 if ctx.quick else 6),
                   'order3_complete_minus_at_most': 2 if ctx.quick else 3,
                   'experiment_filter_masks_k': [3, 6 if ctx.quick else 8], 'oracle_selfcheck_masks': len(sv)}
